@@ -31,6 +31,8 @@ declare -A MAP=(
  ["meets the requested counts"]="C20"
  ["leave the sampled coefficients in place"]="C18"
  ["at every call site of a layer invoked multiple times"]="C07"
+ ["ties the features of all the call sites"]="C09"
+ ["pads every call site and leaves shared padding"]="C08"
 )
 fail=0
 git -C /repo log --format='%h %s' bfd6014..HEAD | grep ' fix:' | while read h msg; do
